@@ -18,10 +18,20 @@ from absint.models_std2 import first
 
 # ------------------------------------------------------------------------------------------------ normal form
 
+REG = {"contents": {}}       # the running interpreter's content registry (set by Interp users through `use_registry`)
+
+
+def use_registry(it):
+    REG["contents"] = it.contents
+
+
 def segments(st, src, length):
     """-> list of ('win', id, off Lin, len Lin) | ('be', nbytes, value) | ('?',) pieces, or None"""
     if src is None:
         return None
+    if src[0] == "cellbyte":
+        v = st.cells.get(src[1])
+        return [("be", 1, v.e if isinstance(v, Num) else None)]
     if src[0] == "cat":
         a = segments(st, src[1], src[2])
         b = segments(st, src[3], length - src[2])
@@ -67,9 +77,24 @@ def cut(st, segs, lo, hi):
 
 
 def merge(st, segs):
-    """drop empty pieces, fuse adjacent windows of the same content"""
+    """drop empty pieces, fuse adjacent windows of the same content, recognise the big-endian bytes of a number"""
+    segs = [norm_piece(st, s) for s in segs]
     out = []
     for s in segs:
+        if s[0] == "be" and s[1] == 1 and out and out[-1][0] == "bepart" and s[2] is not None:
+            pass
+        if s[0] == "bepart":
+            # byte k of the n-byte number E: fuse k = 0 .. n-1 in order into be(n, E)
+            if s[2] == 0:
+                out.append(("bepart", s[1], 0, s[3], s[4]))
+            elif out and out[-1][0] == "bepart" and out[-1][1] == s[1] and out[-1][2] == s[2] - 1:
+                out[-1] = ("bepart", s[1], s[2], s[3], s[4])
+            else:
+                out.append(("?",))
+                continue
+            if out[-1][2] == out[-1][3] - 1:
+                out[-1] = ("be", out[-1][3], out[-1][4])
+            continue
         if s[0] == "win" and st.sys.entails_eq(s[3]):
             continue
         if out and s[0] == "win" and out[-1][0] == "win" and out[-1][1] == s[1] and st.sys.entails_eq(out[-1][2] + out[-1][3] - s[2]):
@@ -79,7 +104,27 @@ def merge(st, segs):
     return out
 
 
+def norm_piece(st, s):
+    """single bytes that are byte k of the big-endian bytes of a known number, and windows covering such bytes"""
+    C = REG["contents"]
+    if s[0] == "be" and s[1] == 1 and isinstance(s[2], Lin) and len(s[2].t) == 1 and s[2].c == 0:
+        nm = next(iter(s[2].t))
+        loc = C.get("bytes", {}).get(nm)
+        if loc is not None:
+            d = C.get(loc[0])
+            k = st.sys.const_value(loc[1])
+            if d and d[0] == "int" and k is not None:
+                return ("bepart", loc[0], int(k), d[1], d[2])
+    if s[0] == "win":
+        d = C.get(s[1])
+        if d and d[0] == "int" and st.sys.entails_eq(s[2]) and st.sys.entails_eq(s[3] - d[1]):
+            return ("be", d[1], d[2])
+    return s
+
+
 def seg_len(s):
+    if s[0] == "bepart":
+        return Lin.const(1)
     if s[0] == "win":
         return s[3]
     if s[0] == "be":
@@ -357,7 +402,9 @@ def int_to_be_bytes(c):
     v = c.args[0]
     src = None
     if isinstance(v, Num):
-        src = ("be%d:%r" % (bits, c.st.sys.reduce(v.e)), Lin.const(0))
+        cid = "be%d:%r" % (bits, c.st.sys.reduce(v.e))
+        src = (cid, Lin.const(0))
+        c.it.contents[cid] = ("int", bits // 8, v.e)
     return [(c.st, Seq(Lin.const(bits // 8), None, None, None, src))]
 
 
